@@ -315,5 +315,5 @@ for _p in ["C01", "C02", "C03", "C04", "C05", "C06", "C07", "C08", "C09", "C11",
     if _p not in PROPS:
         NOT_CLAIMED[_p] = "not claimed yet: machinery under construction (theorems exist in lean/Ogen, the tie to /repo is not finished)"
 
-HOOK_COMMITS = ["8a1dd2e74a0b79a9e824b1b1ebee79bbac4dec2d", "0932b764a1d9512d33b0edbdb0df4d17b735f038", "ef3ea3473b26c332debe40e97892594d565639bc", "aee233eac6b9663d90022f009f68c7808e867606", "7e96f1649686c29e7dfd0604b7e07018df5f9b9f", "cbf132b99aca4f7c72df174ea158d4d8914d594d", "8e171b49bc5a4ebab20cd88e19e274748bdc7677", "772c1aa6b9861b16985da9a2422fc223aef25211", "8cced4062d96ba4721752a06483809b441a031dc", "17e2cc6c55514adde6e33ef67cd8a7819f2b1250"]
+HOOK_COMMITS = ["8a1dd2e74a0b79a9e824b1b1ebee79bbac4dec2d", "0932b764a1d9512d33b0edbdb0df4d17b735f038", "ef3ea3473b26c332debe40e97892594d565639bc", "aee233eac6b9663d90022f009f68c7808e867606", "7e96f1649686c29e7dfd0604b7e07018df5f9b9f", "cbf132b99aca4f7c72df174ea158d4d8914d594d", "8e171b49bc5a4ebab20cd88e19e274748bdc7677", "772c1aa6b9861b16985da9a2422fc223aef25211", "8cced4062d96ba4721752a06483809b441a031dc", "17e2cc6c55514adde6e33ef67cd8a7819f2b1250", "a517ea4b1164102ffe37b1f38de190711fb14d9c"]
 
